@@ -840,11 +840,13 @@ def _m_adopt_stale(d):
     # before a collection adopted it) and its own shape (the answer given is exactly the pre-adoption answer)
     c = d["case"]
     h = c.get("history", [])
+    # (chunk_relative_intron_location is a plain alias of chunk_relative_gaps_location: one result cache, two names)
+    same_cache = lambda n: {"chunk_relative_intron_location": "chunk_relative_gaps_location"}.get(n, n)
     return (
         c.get("op") in STALE_AFTER_ADOPT
         and c.get("spec", {}).get("parent") == "none"
         and ADOPT in h
-        and c["op"] in h[: h.index(ADOPT)]
+        and same_cache(c["op"]) in {same_cache(x) for x in h[: h.index(ADOPT)]}
         and d.get("stale_pre_adopt") is True
     )
 
